@@ -1,6 +1,7 @@
 package props
 
 import (
+	"fmt"
 	"strings"
 
 	"golang.org/x/tools/go/ssa"
@@ -221,7 +222,30 @@ func C11(p *engine.Prog, r *engine.Report) {
 		ok := clr != nil && rd != nil && engine.InstrDominates(clr, rd) && engine.PathOf(clr.Common().Args[0]) == engine.PathOf(rd.Common().Args[0])
 		r.Check(ok, "C11-R3", x.typ+".RecoverSnapshot2|target prefix cleared before import", p.Pos(f.Pos()), "ClearDb(pdb) dominates ReadTreeFrom2(pdb, …)", "import into a prefix that may hold leftovers of an earlier attempt")
 	}
-	r.Floor("C11-R3", 8, "5 refusals + 2 gates + recover")
+	// the snapshot prefix is addressed the same way by everyone: dbm.NewPrefixDB(s.original, BuildDbPrefix(h))
+	{
+		n := 0
+		for _, f := range funcsOfPkg(p, "core/state") {
+			if f.Blocks == nil || isTestish(p.Pos(f.Pos())) || f.Signature.Recv() == nil {
+				continue
+			}
+			for _, c := range engine.Calls(f) {
+				if !engine.CallNameIs(c, "NewPrefixDB") || len(c.Common().Args) != 2 {
+					continue
+				}
+				if pc, ok := engine.Origin(c.Common().Args[1]).(*ssa.Call); !ok || !(engine.CallNameIs(pc, "BuildDbPrefix") || engine.CallNameIs(pc, "buildDbPrefix")) {
+					continue
+				}
+				n++
+				_, fld, okF := engine.FieldOf(engine.Origin(c.Common().Args[0]))
+				r.Check(okF && fld == "original", "C11-R3", uniq(r, engine.RelName(f)+"|snapshot prefix addressed on the raw database"), p.InstrPos(c), "NewPrefixDB(s.original, BuildDbPrefix(h))", "the prefix database is built on "+engine.PathOf(c.Common().Args[0])+" instead of the raw database: it addresses another key range than the import wrote (a refused snapshot is not cleaned up / a committed one is not found)")
+			}
+		}
+		if n < 3 {
+			r.Und("C11-R3", "snapshot prefix sites", "", fmt.Sprintf("%d NewPrefixDB(…, BuildDbPrefix(h)) sites found (3+ confirmed by reading)", n))
+		}
+	}
+	r.Floor("C11-R3", 11, "5 refusals + 2 gates + recover + 3 prefix sites")
 
 	// ---------------- R4
 	if vi := mustFunc(p, r, "protocol", "fastSync.validateIdentityState"); vi != nil {
@@ -286,8 +310,46 @@ func C11(p *engine.Prog, r *engine.Report) {
 			}
 		}
 		r.Check(ok, "C11-R4", "applyDeferredBlocks|diff committed/stored only after validateIdentityState==nil", p.Pos(ad.Pos()), "dominated", "a block's diff is committed or stored although it did not reproduce the identity root")
+		// every accepted block stores its diff — also an empty one, which is what clears the entry an
+		// abandoned block left at that height (fix 1933510a): the store is not control-dependent on the diff
+		{
+			var hdrAdd, wr ssa.CallInstruction
+			for _, c := range engine.Calls(ad) {
+				if engine.CallIs(c, "blockchain.Blockchain.AddHeaderUnsafe") {
+					hdrAdd = c
+				}
+				if engine.CallIs(c, "blockchain.Blockchain.WriteIdentityStateDiff") {
+					wr = c
+				}
+			}
+			okW := hdrAdd != nil && wr != nil
+			if okW {
+				g := nilErrGuards(ad, hdrAdd.(*ssa.Call))
+				hdr := engine.LoopHeaderOf(wr.Block())
+				okW = hdr != nil && len(g) > 0
+				if okW {
+					// from the success edge of AddHeaderUnsafe, the loop header (next block) or a return is reachable only through the store
+					pe := g[0].PassEdge()
+					start := pe.From.Succs[pe.Succ]
+					reach := engine.ReachAvoiding(ad, start, nil, map[*ssa.BasicBlock]bool{wr.Block(): true})
+					if start != wr.Block() {
+						for b := range reach {
+							if b == hdr {
+								okW = false
+							}
+							if len(b.Instrs) > 0 {
+								if _, isRet := b.Instrs[len(b.Instrs)-1].(*ssa.Return); isRet {
+									okW = false
+								}
+							}
+						}
+					}
+				}
+			}
+			r.Check(okW, "C11-R4", "applyDeferredBlocks|every accepted block stores its diff, empty or not", p.Pos(ad.Pos()), "WriteIdentityStateDiff on every path after AddHeaderUnsafe==nil", "a fast-synced block with an empty diff does not overwrite the diff an abandoned block left at its height: the node keeps serving a diff that does not reproduce the canonical identity root")
+		}
 	}
-	r.Floor("C11-R4", 4, "root gate, rollback, Reset, deferred")
+	r.Floor("C11-R4", 5, "root gate, rollback, Reset, deferred ×2")
 }
 
 func sliceHas(v ssa.Value, x ssa.Value) bool {
